@@ -1,6 +1,7 @@
 package props
 
 import (
+	"crypto/rand"
 	"errors"
 	"fmt"
 	"net"
@@ -83,6 +84,31 @@ func c09Try(c *core.Ctx, m *stun.Message, what string, s stun.Setter, wantOK boo
 	}
 }
 
+// stingyReader delivers `left` bytes and then fails, like an entropy source that dies in the middle of a read.
+type stingyReader struct {
+	left int
+	src  *gen.Rand
+}
+
+func (s *stingyReader) Read(p []byte) (int, error) {
+	if s.left == 0 {
+		return 0, errors.New("entropy source failed")
+	}
+	n := len(p)
+	if n > s.left {
+		n = s.left
+	}
+	for k := 0; k < n; k++ {
+		p[k] = byte(s.src.U64()) | 1
+	}
+	s.left -= n
+	if s.left == 0 {
+		return n, errors.New("entropy source failed")
+	}
+
+	return n, nil
+}
+
 type countingSetter struct {
 	inner stun.Setter
 	calls *int
@@ -131,6 +157,65 @@ func c09(c *core.Ctx) {
 			c.Distinct(uint64(n) | uint64(ts.typ)<<20)
 		})
 	}
+	// (1b) far beyond the limit, around the multiples of 65536 where a 16-bit length would wrap into the accepted range
+	c.Section("text-huge", int64(len(texts)*12), func(i int64, r *gen.Rand) {
+		ts := texts[int(i)%len(texts)]
+		n := []int{65535, 65536, 65537, 65536 + 10, 65536 + ts.limit, 65536 + ts.limit + 1, 2*65536 + 7, 3*65536 + ts.limit,
+			1 << 20, 1<<20 + ts.limit, 16 << 20, 65536 + r.Intn(ts.limit+1)}[int(i)/len(texts)]
+		m := c09Preceding(r)
+		c09Try(c, m, fmt.Sprintf("%s(%dB)", ts.name, n), ts.mk(r.Bytes(n)), false, "size-overflow", ts.typ)
+		c.Distinct(uint64(n) | uint64(ts.typ)<<32 | 3<<50)
+	})
+	// (1c) the random transaction id setter when the system's entropy source fails after k bytes: an error, and the
+	// message's raw bytes, length and attribute list are what they were
+	c.SectionSerial("transaction-id-entropy-failure", 13*4, func(i int64, r *gen.Rand) {
+		k := int(i) % 13
+		saved := rand.Reader
+		defer func() { rand.Reader = saved }()
+		m := c09Preceding(r)
+		before := viewOf(m)
+		rand.Reader = &stingyReader{left: k, src: r}
+		var err error
+		var via string
+		p, stack := safely(func() {
+			if i%2 == 0 {
+				via = "TransactionID.AddTo"
+				err = stun.TransactionID.AddTo(m)
+			} else {
+				via = "Message.NewTransactionID"
+				err = m.NewTransactionID()
+			}
+		})
+		rand.Reader = saved
+		c.Eval(1)
+		detail := map[string]interface{}{"setter": via, "entropy_bytes_before_failure": k, "err": fmt.Sprint(err), "message_before_hex": core.Hex(before.Raw)}
+		if p != nil {
+			reportPanic(c, via, p, stack, detail)
+
+			return
+		}
+		if k >= 12 {
+			if err != nil {
+				c.Violate("limit", "limit:"+via, detail)
+			}
+
+			return
+		}
+		c.Count("rejections", 1)
+		if err == nil {
+			c.Violate("limit", "limit:"+via+":entropy-failure-ignored", detail)
+
+			return
+		}
+		after := viewOf(m)
+		after.TID = before.TID // the statement is about raw bytes, length and attribute list
+		if d := before.diff(after); d != "" {
+			detail["diff"] = d
+			detail["message_after_hex"] = core.Hex(m.Raw)
+			c.Violate("not-atomic", "not-atomic:"+via, detail)
+		}
+		c.Distinct(uint64(i) | 4<<50)
+	})
 	// (2) IP lengths 0..20 for every address setter
 	type ipSetter struct {
 		name string
